@@ -641,6 +641,8 @@ func runPlan(p Plan) (vk.Outcome, error) {
 		return run(tk.StringKeys, p)
 	case "struct":
 		return run(tk.StructKeys, p)
+	case "ptr":
+		return run(tk.PtrKeys, p)
 	}
 	return vk.Outcome{}, fmt.Errorf("bad keys")
 }
